@@ -235,3 +235,76 @@ Proof.
     apply andb_true_iff in B1; destruct B1 as [C1 R1]. apply andb_true_iff in B2; destruct B2 as [C2 R2].
     rewrite (IH R1 R2), andb_true_r. apply negb_true_iff in C1, C2. rewrite C1, C2. reflexivity.
 Qed.
+
+(* ------------------------------------------------------------------ the handlers of a class within any program *)
+(** the add_listener calls a program makes on service class [c] for event [e], in order *)
+Definition own_regs (c : nat) (e : ev) (p : list regop) : list lid :=
+  flat_map (fun o => match o with
+                     | RAdd (MSvc c') e' h => if Nat.eqb c c' && ev_eqb e e' then [h] else []
+                     | _ => []
+                     end) p.
+
+Lemma upd_nth_nth : forall {A} (f : A -> A) n (l l' : list A) k,
+  upd_nth n l f = Some l' ->
+  nth_error l' k = if Nat.eqb k n then option_map f (nth_error l k) else nth_error l k.
+Proof.
+  induction n; intros [|x r] l' k H; simpl in H; try discriminate.
+  - inversion H; subst. destruct k; reflexivity.
+  - destruct (upd_nth n r f) as [r'|] eqn:E; [|discriminate]. inversion H; subst.
+    destruct k; simpl; [reflexivity|]. apply IHn; assumption.
+Qed.
+
+Lemma reg_step_class_get : forall o w w' c m e, reg_step w o = Some w' -> nth_error (w_cls w) c = Some m ->
+  exists m', nth_error (w_cls w') c = Some m'
+             /\ em_get m' e = fold_left oset_add (own_regs c e [o]) (em_get m e).
+Proof.
+  intros o w w' c m e H Hc. destruct o as [bases| |mr e' h]; simpl in H.
+  - destruct (opt_all _); [|discriminate]. inversion H; subst; simpl.
+    exists m. split; [|reflexivity]. rewrite nth_error_app1; [assumption|].
+    apply nth_error_Some. congruence.
+  - inversion H; subst; simpl. exists m; auto.
+  - destruct mr; simpl in H;
+      try (inversion H; subst; simpl; exists m; split; [assumption | reflexivity]).
+    + destruct (upd_nth c0 (w_cls w) _) as [l|] eqn:E; [|discriminate]. inversion H; subst; simpl.
+      rewrite (upd_nth_nth _ _ _ _ c E). unfold own_regs; simpl.
+      destruct (Nat.eqb c c0) eqn:N.
+      * rewrite Hc; simpl. eexists; split; [reflexivity|]. rewrite add_listener_get.
+        apply Nat.eqb_eq in N; subst. destruct (ev_eqb e e') eqn:Ee; [apply ev_eqb_eq in Ee; subst|]; reflexivity.
+      * exists m; split; [assumption | reflexivity].
+    + destruct (upd_nth k (w_meth w) _) as [l|] eqn:E; [|discriminate]. inversion H; subst; simpl.
+      exists m; split; [assumption | reflexivity].
+Qed.
+
+Lemma own_regs_cons : forall c e o p, own_regs c e (o :: p) = own_regs c e [o] ++ own_regs c e p.
+Proof. intros; unfold own_regs; simpl; rewrite app_nil_r; reflexivity. Qed.
+
+Lemma reg_run_class_get : forall post w w' c m e, reg_run w post = Some w' -> nth_error (w_cls w) c = Some m ->
+  exists m', nth_error (w_cls w') c = Some m'
+             /\ em_get m' e = fold_left oset_add (own_regs c e post) (em_get m e).
+Proof.
+  induction post as [|o r IH]; intros w w' c m e H Hc; simpl in H.
+  - inversion H; subst. exists m; auto.
+  - destruct (reg_step w o) as [w1|] eqn:E; [|discriminate].
+    destruct (reg_step_class_get o w w1 c m e E Hc) as (m1 & H1 & G1).
+    destruct (IH w1 w' c m1 e H H1) as (m' & H' & G').
+    exists m'; split; [assumption|]. rewrite own_regs_cons, fold_left_app, <- G1. exact G'.
+Qed.
+
+(** THE HANDLERS OF A SERVICE CLASS, for any program around its class statement: what its bases
+    had when it was created (bases left to right), followed by what was registered on it
+    afterwards, first occurrence of each listener, in that order *)
+Theorem class_handlers : forall pre bases post w1 w1' w2 e,
+  reg_run world0 pre = Some w1 -> reg_step w1 (RNewClass bases) = Some w1' -> reg_run w1' post = Some w2 ->
+  exists bs m, opt_all (map (nth_error (w_cls w1)) bases) = Some bs
+    /\ nth_error (w_cls w2) (length (w_cls w1)) = Some m
+    /\ em_get m e = dedup_first (concat (map (fun b => em_get b e) bs) ++ own_regs (length (w_cls w1)) e post).
+Proof.
+  intros pre bases post w1 w1' w2 e Hpre Hstep Hpost.
+  assert (W1 : wf_world w1) by (eapply wf_reg_run; eauto using wf_world0).
+  destruct (inherited w1 bases w1' W1 Hstep) as (bs & Hbs & Hcls & Hget & _).
+  assert (Hn : nth_error (w_cls w1') (length (w_cls w1)) = Some (base_event_handlers bs)).
+  { rewrite Hcls, nth_error_app2 by apply Nat.le_refl. rewrite Nat.sub_diag. reflexivity. }
+  destruct (reg_run_class_get post w1' w2 _ _ e Hpost Hn) as (m & Hm & G).
+  exists bs, m. repeat split; try assumption.
+  rewrite G, Hget. rewrite <- !oset_order, fold_left_app. reflexivity.
+Qed.
